@@ -27,7 +27,7 @@ r = sub, obj, act
 p = {pdef}
 
 [policy_effect]
-e = {effect}
+e = {effect}{e2}
 
 [matchers]
 m = {matcher}
@@ -96,30 +96,63 @@ def realise(outs, has_eft, rng=None, allow_fn=True):
 _CACHE = {}
 
 
-def get_enforcer(effect, has_eft, use_fn, cls=None):
-    key = (effect, has_eft, use_fn, cls)
+NESTED_REQ = ("carol", "data9", "read")
+# rules that only the nested request matches (for the outer request REQ they are plain non-matches)
+NESTED_RULES = [("carol", "data9", "read", "allow"), ("carol", "data9", "read", "deny")]
+
+
+def make_nesting_probe(e):
+    """user function that itself asks the enforcer (a delegation lookup): the nested decision must not leak into
+    the decision that is being computed"""
+    state = {"depth": 0}
+
+    def f(pact, ract):
+        if state["depth"] == 0:
+            state["depth"] = 1
+            try:
+                e.enforce(*NESTED_REQ)
+            except Exception:  # noqa
+                pass
+            finally:
+                state["depth"] = 0
+        return probe(pact, ract)
+    return f
+
+
+def get_enforcer(effect, has_eft, use_fn, cls=None, default_effect=None):
+    """default_effect: the model's `e` is default_effect and the effect under test is defined as `e2`
+    (selected through an EnforceContext whose other definitions stay r/p/m)"""
+    key = (effect, has_eft, use_fn, cls, default_effect)
     e = _CACHE.get(key)
     if e is None:
         m = Model()
         m.load_model_from_text(MODEL.format(pdef="sub, obj, act, eft, tag" if has_eft else "sub, obj, act, tag",
-                                            effect=effect, matcher=FN_MATCHER if use_fn else PLAIN_MATCHER))
+                                            effect=default_effect or effect,
+                                            e2=("\ne2 = " + effect) if default_effect else "",
+                                            matcher=FN_MATCHER if use_fn else PLAIN_MATCHER))
         e = (cls or casbin.Enforcer)(m)
-        if use_fn:
+        if use_fn == "nest":
+            e.add_function("probe", make_nesting_probe(e))
+        elif use_fn:
             e.add_function("probe", probe)
         _CACHE[key] = e
     return e
 
 
-def observe(effect, has_eft, rules, req=REQ, enabled=True, use_fn=False):
+def observe(effect, has_eft, rules, req=REQ, enabled=True, use_fn=False, default_effect=None):
     """returns canonical observation in the oracle's result shape:
        [0, [decision, [idx]|[]]]  or [999, code];  plus side observations dict"""
-    e = get_enforcer(effect, has_eft, use_fn)
+    e = get_enforcer(effect, has_eft, use_fn, default_effect=default_effect)
     e.clear_policy()
     e.enable_enforce(True)
     for r in rules:
         e.add_policy(*r)
     stored = e.get_policy()
     e.enable_enforce(enabled)
+    if default_effect:
+        ctx = e.new_enforce_context("2")
+        ctx.rtype, ctx.ptype, ctx.mtype = "r", "p", "m"       # only the effect definition is the second one
+        req = (ctx,) + tuple(req)
     side = {}
     try:
         d, ex = e.enforce_ex(*req)
